@@ -118,6 +118,13 @@ func computeGlobalChallenge(suite Suite, n uint32, commit *share.PubPoly,
 	_, polyComs := commit.Info()
 	coms := computeCommitments(suite, n, polyComs)
 
+	for _, encShare := range encShares {
+		// the parts of a share that the challenge hashes
+		if encShare == nil || encShare.S.V == nil || encShare.P.VG == nil || encShare.P.VH == nil {
+			return nil, fmt.Errorf("incomplete share: %w", ErrEncVerification)
+		}
+	}
+
 	h := suite.Hash()
 	var err error
 	for _, com := range coms {
@@ -148,10 +155,20 @@ func computeGlobalChallenge(suite Suite, n uint32, commit *share.PubPoly,
 	return suite.Scalar().Pick(suite.XOF(cb)), nil
 }
 
+// complete tells whether a share carries its value and every part of its
+// proof; verification calls methods on all of them.
+func (s *PubVerShare) complete() bool {
+	return s != nil && s.S.V != nil &&
+		s.P.C != nil && s.P.R != nil && s.P.VG != nil && s.P.VH != nil
+}
+
 // VerifyEncShare checks that the encrypted share sX satisfies
 // log_{H}(sH) == log_{X}(sX) where sH is the public commitment computed by
 // evaluating the public commitment polynomial at the encrypted share's index i.
 func VerifyEncShare(suite Suite, H, X, sH kyber.Point, expGlobalChallenge kyber.Scalar, encShare *PubVerShare) error {
+	if !encShare.complete() {
+		return fmt.Errorf("didn't verify: %w", ErrEncVerification)
+	}
 	if !encShare.P.C.Equal(expGlobalChallenge) {
 		return fmt.Errorf("didn't verify: %w", ErrGlobalChallengeVerification)
 	}
@@ -246,6 +263,9 @@ func DecShareBatch(
 // VerifyDecShare checks that the decrypted share sG satisfies
 // log_{G}(X) == log_{sG}(sX). Note that X = xG and sX = s(xG) = x(sG).
 func VerifyDecShare(suite Suite, G, X kyber.Point, encShare *PubVerShare, decShare *PubVerShare) error {
+	if !encShare.complete() || !decShare.complete() {
+		return fmt.Errorf("didn't verify: %w", ErrDecVerification)
+	}
 	// A decrypted share answers exactly one encrypted share: the index it
 	// claims is the index recovery will interpolate it at.
 	if decShare.S.I != encShare.S.I {
